@@ -121,6 +121,9 @@ func isClientEvent(k string) bool { return !serverKinds[k] }
 // needs the request to have arrived, and a want-reply keepalive blocks the server until it is
 // answered (two of them in flight would contend for the channel's request mutex, which is not a
 // durable block for synctest), so those two are always run to quiescence on their own.
+// A connection loss (sdrop) is never sent right behind data in one burst: output still in flight when the
+// connection dies may be lost (the client's window adjustment fails on the dead connection and aborts the
+// copy) -- the documented guarantees cover a channel that is closed, not a connection that disappears.
 var burstKinds = map[string]bool{"sdata": true, "seof": true, "sexit": true, "sexitbad": true, "ssig": true, "ssigbad": true,
 	"sclose": true, "sdrop": true}
 
@@ -324,7 +327,7 @@ func replayIn(t *testing.T, c *caseT, salt int64, burst bool) (mm *mismatch, inf
 		tok := 0
 		var last *stepT
 		acc := map[int]resT{}
-		inBurst := false
+		inBurst, dataInBurst := false, false
 		for i := range c.Steps {
 			st := &c.Steps[i]
 			last = st
@@ -349,7 +352,11 @@ func replayIn(t *testing.T, c *caseT, salt int64, burst bool) (mm *mismatch, inf
 				infra = err
 				return
 			}
-			if burst && burstKinds[st.Ev.K] && i+1 < len(c.Steps) && burstKinds[c.Steps[i+1].Ev.K] {
+			if st.Ev.K == "sdata" {
+				dataInBurst = true
+			}
+			if burst && burstKinds[st.Ev.K] && i+1 < len(c.Steps) && burstKinds[c.Steps[i+1].Ev.K] &&
+				!(dataInBurst && c.Steps[i+1].Ev.K == "sdrop") {
 				for k, v := range want {
 					acc[k] = v
 				}
@@ -373,7 +380,7 @@ func replayIn(t *testing.T, c *caseT, salt int64, burst bool) (mm *mismatch, inf
 				mm = m
 				return
 			}
-			acc, inBurst = map[int]resT{}, false
+			acc, inBurst, dataInBurst = map[int]resT{}, false, false
 		}
 		// the connection is dropped
 		w.pair.Ends[1].Close()
